@@ -11,6 +11,7 @@ import xml.etree.ElementTree as ET
 from vf import ref_schema as S
 from vf import universe as U
 from vf import wire
+from vf.checks import c11
 from vf.core import vacuous, HarnessError, Tally
 
 LEVEL = "fault_enumeration"
@@ -148,7 +149,9 @@ def class_probes(t, cls):
         # ---- enumeration
         if c.typ == "OneOf":
             t.count("constraints")
-            for tok in ("NOT_A_TOKEN", str(c.params[0]).lower() if str(c.params[0]).lower() not in c.params else "zz", str(c.params[0]) + "X"):
+            own = [str(x) for x in c.params]
+            # + tokens other enumerations declare (each accepted there first, see c11.prime)
+            for tok in ["NOT_A_TOKEN", str(c.params[0]).lower() if str(c.params[0]).lower() not in c.params else "zz", str(c.params[0]) + "X"] + [x for x in c11.FOREIGN_TOKENS if x not in own]:
                 if tok in c.params:
                     continue
                 P.must_reject("ctor", f"{c.name}={tok!r}", f"enum:{c.name}", via_ctor, setv(tok), case)
@@ -301,6 +304,7 @@ def class_probes(t, cls):
 
 def work(chunk):
     t = Tally()
+    c11.prime()
     for clsname in chunk:
         try:
             class_probes(t, U.cls_by_name(clsname))
@@ -331,7 +335,7 @@ def run(ctx):
         "evaluations": tally.counts.get("evaluations", 0),
         "distinct_nontrivial": tally.counts.get("violating", 0),
         "rule": "every class x every declared/inherited constraint: required child omitted (MIN and MAXS); each pair of a group present, none of an exactly-one group, "
-        "each member alone; enumeration foreign tokens and first/last token; string at limit / limit+1 (also counted in escaped ampersands; NagString warns and keeps); "
+        "each member alone; enumeration foreign tokens (near misses and 8 tokens of other enumerations, accepted there first) and first/last token; string at limit / limit+1 (also counted in escaped ampersands; NagString warns and keeps); "
         "integer +-(10^n-1) / 10^n,-10^n,10^(n+1); non-value text per typed element; every adjacent pair of the MAXS tree swapped (unless both repeated); every "
         "non-repeatable child duplicated (adjacent and one sibling later); foreign aggregate / int / str as list member; undeclared keyword - through the keyword "
         "constructor and through Aggregate.from_etree on a tree built by the harness; distinct_nontrivial = violating variants, evaluations also count boundary variants",
@@ -350,6 +354,7 @@ def run(ctx):
 
 def replay(ctx, case):
     t = Tally()
+    c11.prime()
     class_probes(t, U.cls_by_name(case["cls"]))
     for sig, (n, c, d) in sorted(t.fails.items()):
         print(" ", sig, "|", d)
